@@ -715,7 +715,11 @@ def decide(prop, tier, seed):
     assumptions = list(U.ASSUMPTIONS_COMMON) + spec.get('assumptions', [])
     level = spec['level']
     cov = {
-        'obligations': obligations, 'discharged': discharged,
+        # `obligations` counts what this run is expected to discharge: the raw total minus the obligations that fail on the unchanged
+        # tree and are matched, by exact name, against a `finding:` line of known-findings.txt. Those are NOT discharged and NOT proved:
+        # they are listed in `known_findings_excluded` and the property is violated there. `obligations_total` is the raw count.
+        'obligations': obligations - len(known), 'obligations_total': obligations, 'discharged': discharged,
+        'known_findings_excluded': [{'obligation': vi['obligation'], 'finding': kf['what']} for vi, kf in known],
         'checker_cmd': ' ;; '.join(checker_cmds) or 'none',
         'trusted_base': trusted + spec.get('trusted', []),
         'functions_under_contract': fns_under_contract,
